@@ -172,3 +172,82 @@ def registered_anywhere(w, first_new):
                 if t and int(t) in new_ids:
                     bad.append('old object %s refers to half-built #%s' % (line.split(' ')[0], t))
     return bad
+
+
+def observers(w):
+    """The read-only queries of the IR classes answer from the same state the dump shows (evaluated on every 3rd step
+    and cheap): a query that disagrees with the lists and back-pointers it is documented to summarise is a wrong answer
+    about a state the correspondence check has just compared with the model. Covers Definition.is_leaf,
+    Instance.is_leaf / is_unique, Wire.index / get_driver, OuterPin.index, Bundle.is_array, the ListView /
+    OuterPinsView / DictView wrappers the list attributes hand out, FirstClassElement.get / __iter__ / data."""
+    w._obs_n = getattr(w, '_obs_n', 0) + 1
+    if w._obs_n % 3:
+        return []
+    bad = []
+
+    def chk(cond, what):
+        if not cond:
+            bad.append(what)
+    for i, o in enumerate(w.objs):
+        k = w.kind(o)
+        try:
+            if k == 'definition':
+                leaf = len(o._children) == 0 and len(o._cables) == 0
+                chk(o.is_leaf() == leaf, 'Definition.is_leaf of #%d is %r' % (i, o.is_leaf()))
+            elif k == 'instance':
+                r = o.reference
+                leaf = r is not None and len(r._children) == 0 and len(r._cables) == 0
+                chk(o.is_leaf() == leaf, 'Instance.is_leaf of #%d is %r' % (i, o.is_leaf()))
+                if r is not None:
+                    chk(o.is_unique() == (len(r.references) == 1 or leaf), 'Instance.is_unique of #%d is %r' % (i, o.is_unique()))
+                view = o.pins
+                for ip, op in o._pins.items():
+                    chk(view.get(op) is op and view.get(ip) is op and op in view and ip in view and view[op] is op,
+                        'the pins view of instance #%d does not find its own pin %s' % (i, w.tok_pin(op)))
+                    if ip.port is not None:
+                        chk(op.index() == [id(x) for x in ip.port.pins].index(id(ip)), 'OuterPin.index of %s' % w.tok_pin(op))
+                chk(view.get(o, 7) == 7 and (o in view) is False, 'the pins view of instance #%d finds a foreign key' % i)
+                chk(len(view) == len(o._pins) and [id(x) for x in view] == [id(x) for x in o._pins.values()], 'the pins view of instance #%d iterates other pins' % i)
+            elif k == 'wire':
+                if o.cable is not None:
+                    chk(o.index() == [id(x) for x in o.cable.wires].index(id(o)), 'Wire.index of #%d is %r' % (i, o.index()))
+                else:
+                    try:
+                        o.index()
+                        chk(False, 'Wire.index of #%d outside any cable answers' % i)
+                    except AssertionError:
+                        pass
+                pins = list(o.pins)
+                if all((p.port if isinstance(p, _InnerPin) else (p.inner_pin.port if p.inner_pin is not None else None)) is not None for p in pins):
+                    exp = [p for p in pins if (p.port.direction is sdn.IN if isinstance(p, _InnerPin) else p.inner_pin.port.direction is sdn.OUT)]
+                    got = o.get_driver()
+                    chk([id(x) for x in got] == [id(x) for x in exp], 'Wire.get_driver of #%d lists %d pins, %d drive it' % (i, len(got), len(exp)))
+            if k in ('port', 'cable'):
+                chk(o.is_array == (not o.is_scalar), 'is_array of #%d is not the inverse of is_scalar' % i)
+            if k in ('netlist', 'library', 'definition', 'port', 'cable', 'instance'):
+                chk(list(iter(o)) == list(o._data.keys()), 'iterating #%d does not give its keys' % i)
+                d = o.data
+                chk(d == o._data and len(d) == len(o._data) and all(d[x] == o._data[x] and o.get(x) == o._data[x] for x in o._data)
+                    and o.get('\x00no such key', 5) == 5, 'the data view / get of #%d disagrees with its entries' % i)
+            for rel, (lattr, battr, *_r) in REL.items():
+                if REL_PARENT[rel] != k:
+                    continue
+                view = getattr(o, lattr)
+                raw = list(view)
+                chk(len(view) == len(raw) and view == raw and not (view != raw) and view.copy() == raw and list(reversed(view)) == raw[::-1]
+                    and view + [] == raw and view * 2 == raw * 2 and 2 * view == raw * 2 and view <= raw and view >= raw and not (view < raw)
+                    and not (view > raw) and all(x in view and view.count(x) == 1 and view[view.index(x)] is x for x in raw)
+                    and (o in view) is False and view.count(o) == 0 and view[:1] == raw[:1],
+                    'the list view %s of #%d disagrees with the list it shows' % (lattr, i))
+                other = getattr(o, lattr)
+                chk(view <= other and view >= other and not (view < other) and not (view > other), 'two views of %s of #%d do not compare equal' % (lattr, i))
+                for bump in ('__iadd__', '__imul__'):
+                    try:
+                        getattr(view, bump)(raw)
+                        chk(False, 'the list view %s of #%d accepts in-place growth' % (lattr, i))
+                    except TypeError:
+                        pass
+                chk([id(x) for x in getattr(o, lattr)] == [id(x) for x in raw], 'reading the view %s of #%d changed the list' % (lattr, i))
+        except Exception as e:  # noqa
+            bad.append('a read-only query on #%d (%s) raises %s: %s' % (i, k, type(e).__name__, str(e)[:120]))
+    return bad
